@@ -163,11 +163,12 @@ macro_rules! core_ops3_impl {
                 bytes
             }
 
-            /// A gadget ciphertext layout (dsize 1) in radix `b` of about `k` bits: (k, size, dnum).
-            fn gadget_ct(b: u32, k: u32, extra: u32) -> (u32, u32, u32) {
-                let k = k.max(b + 1);
+            /// A gadget ciphertext layout with digits of `ds` limbs in radix `b` of about `k` bits: (k, size, dnum)
+            /// (the layouts want `size > dsize` and `dnum * dsize <= size`).
+            fn gadget_ct(b: u32, k: u32, extra: u32, ds: u32) -> (u32, u32, u32) {
+                let k = k.max(b * ds + 1);
                 let size = k.div_ceil(b);
-                (k, size, 1 + extra % size)
+                (k, size, 1 + extra % (size / ds))
             }
 
             fn ksk_layout(sh: &Shape, rank_in: u32, rank_out: u32) -> GLWESwitchingKeyLayout {
@@ -240,6 +241,9 @@ macro_rules! core_ops3_impl {
                 let c = ctx(sh.n, 1);
                 let m = &c.module;
                 let mut big: ScratchOwned<BE> = ScratchOwned::alloc(1 << 22);
+                // digit size of the gadget ciphertexts being transformed (source and destination share it: entry
+                // asserts); one draw in three has two-limb digits
+                let ds: u32 = if (sh.seed >> 52) % 3 == 0 { 2 } else { 1 };
                 let r = match op {
                     "gglwe_keyswitch" | "gglwe_keyswitch_assign" => {
                         let r0 = 1 + (sh.extra & 1);
@@ -249,7 +253,7 @@ macro_rules! core_ops3_impl {
                         ksk.fill_uniform(sh.b_key as usize, &mut src(sh.seed, 2));
                         let mut kp = m.glwe_switching_key_prepared_alloc_from_infos(&ksk);
                         m.glwe_switching_key_prepare(&mut kp, &ksk, big.borrow());
-                        let (k_a, size_a, dnum_a) = gadget_ct(sh.b_in, sh.k_in, sh.extra >> 1);
+                        let (k_a, size_a, dnum_a) = gadget_ct(sh.b_in, sh.k_in, sh.extra >> 1, ds);
                         if op == "gglwe_keyswitch" {
                             let a_infos = GGLWELayout {
                                 n: Degree(sh.n),
@@ -258,17 +262,17 @@ macro_rules! core_ops3_impl {
                                 rank_in: Rank(r0),
                                 rank_out: Rank(sh.rank_in),
                                 dnum: Dnum(dnum_a),
-                                dsize: Dsize(1),
+                                dsize: Dsize(ds),
                             };
-                            let (k_r, size_r, _) = gadget_ct(sh.b_in, sh.k_res, 0);
+                            let (k_r, size_r, _) = gadget_ct(sh.b_in, sh.k_res, 0, ds);
                             let res_infos = GGLWELayout {
                                 n: Degree(sh.n),
                                 base2k: Base2K(sh.b_in),
                                 k: TorusPrecision(k_r),
                                 rank_in: Rank(r0),
                                 rank_out: Rank(sh.rank_out),
-                                dnum: Dnum(dnum_a.min(size_r)),
-                                dsize: Dsize(1),
+                                dnum: Dnum(dnum_a.min(size_r / ds)),
+                                dsize: Dsize(ds),
                             };
                             let mut a: GGLWE<Vec<u8>> = GGLWE::alloc_from_infos(&a_infos);
                             a.fill_uniform(sh.b_in as usize, &mut src(sh.seed, 6));
@@ -284,7 +288,7 @@ macro_rules! core_ops3_impl {
                                 rank_in: Rank(r0),
                                 rank_out: Rank(sh.rank_out),
                                 dnum: Dnum(dnum_a),
-                                dsize: Dsize(1),
+                                dsize: Dsize(ds),
                             };
                             let mut res: GGLWE<Vec<u8>> = GGLWE::alloc_from_infos(&io);
                             res.fill_uniform(sh.b_in as usize, &mut src(sh.seed, 6));
@@ -304,8 +308,8 @@ macro_rules! core_ops3_impl {
                         ggsw.fill_uniform(sh.b_key as usize, &mut src(sh.seed, 2));
                         let mut gp = m.ggsw_prepared_alloc_from_infos(&ggsw);
                         m.ggsw_prepare(&mut gp, &ggsw, big.borrow());
-                        let (k_a, size_a, dnum_a) = gadget_ct(sh.b_in, sh.k_in, sh.extra >> 1);
-                        let (k_r, size_r, dnum_r) = gadget_ct(sh.b_in, sh.k_res, sh.extra >> 2);
+                        let (k_a, size_a, dnum_a) = gadget_ct(sh.b_in, sh.k_in, sh.extra >> 1, ds);
+                        let (k_r, size_r, dnum_r) = gadget_ct(sh.b_in, sh.k_res, sh.extra >> 2, ds);
                         if op.starts_with("gglwe") {
                             let a_infos = GGLWELayout {
                                 n: Degree(sh.n),
@@ -314,7 +318,7 @@ macro_rules! core_ops3_impl {
                                 rank_in: Rank(r0),
                                 rank_out: Rank(rank),
                                 dnum: Dnum(dnum_a),
-                                dsize: Dsize(1),
+                                dsize: Dsize(ds),
                             };
                             let res_infos = GGLWELayout {
                                 n: Degree(sh.n),
@@ -324,7 +328,7 @@ macro_rules! core_ops3_impl {
                                 rank_out: Rank(rank),
                                 // (the op indexes rows of `a` up to res.dnum: more rows than `a` has is not admissible)
                                 dnum: Dnum(dnum_r.min(dnum_a)),
-                                dsize: Dsize(1),
+                                dsize: Dsize(ds),
                             };
                             let mut a: GGLWE<Vec<u8>> = GGLWE::alloc_from_infos(&a_infos);
                             a.fill_uniform(sh.b_in as usize, &mut src(sh.seed, 6));
@@ -345,7 +349,7 @@ macro_rules! core_ops3_impl {
                                 k: TorusPrecision(k_a),
                                 rank: Rank(rank),
                                 dnum: Dnum(dnum_a),
-                                dsize: Dsize(1),
+                                dsize: Dsize(ds),
                             };
                             let res_infos = GGSWLayout {
                                 n: Degree(sh.n),
@@ -353,7 +357,7 @@ macro_rules! core_ops3_impl {
                                 k: TorusPrecision(k_r),
                                 rank: Rank(rank),
                                 dnum: Dnum(dnum_r),
-                                dsize: Dsize(1),
+                                dsize: Dsize(ds),
                             };
                             let mut a: GGSW<Vec<u8>> = GGSW::alloc_from_infos(&a_infos);
                             a.fill_uniform(sh.b_in as usize, &mut src(sh.seed, 6));
@@ -376,23 +380,23 @@ macro_rules! core_ops3_impl {
                         tsk.fill_uniform(sh.b_key as usize, &mut src(sh.seed, 7));
                         let mut tp = m.gglwe_to_ggsw_key_prepared_alloc_from_infos(&tsk);
                         m.gglwe_to_ggsw_key_prepare(&mut tp, &tsk, big.borrow());
-                        let (k_a, size_a, dnum_a) = gadget_ct(sh.b_in, sh.k_in, sh.extra);
-                        let (k_r, size_r, _) = gadget_ct(sh.b_in, sh.k_res, 0);
+                        let (k_a, size_a, dnum_a) = gadget_ct(sh.b_in, sh.k_in, sh.extra, ds);
+                        let (k_r, size_r, _) = gadget_ct(sh.b_in, sh.k_res, 0, ds);
                         let a_infos = GGSWLayout {
                             n: Degree(sh.n),
                             base2k: Base2K(sh.b_in),
                             k: TorusPrecision(k_a),
                             rank: Rank(rank),
                             dnum: Dnum(dnum_a),
-                            dsize: Dsize(1),
+                            dsize: Dsize(ds),
                         };
                         let res_infos = GGSWLayout {
                             n: Degree(sh.n),
                             base2k: Base2K(sh.b_in),
                             k: TorusPrecision(k_r),
                             rank: Rank(rank),
-                            dnum: Dnum(dnum_a.min(size_r)),
-                            dsize: Dsize(1),
+                            dnum: Dnum(dnum_a.min(size_r / ds)),
+                            dsize: Dsize(ds),
                         };
                         let mut a: GGSW<Vec<u8>> = GGSW::alloc_from_infos(&a_infos);
                         a.fill_uniform(sh.b_in as usize, &mut src(sh.seed, 6));
@@ -437,23 +441,23 @@ macro_rules! core_ops3_impl {
                         let mut ap = m.glwe_automorphism_key_prepared_alloc_from_infos(&atk);
                         m.glwe_automorphism_key_prepare(&mut ap, &atk, big.borrow());
                         // the key being transformed: radix b_in
-                        let (k_a, size_a, dnum_a) = gadget_ct(sh.b_in, sh.k_in, sh.extra);
-                        let (k_r, size_r, _) = gadget_ct(sh.b_in, sh.k_res, 0);
+                        let (k_a, size_a, dnum_a) = gadget_ct(sh.b_in, sh.k_in, sh.extra, ds);
+                        let (k_r, size_r, _) = gadget_ct(sh.b_in, sh.k_res, 0, ds);
                         let a_infos = GLWEAutomorphismKeyLayout {
                             n: Degree(sh.n),
                             base2k: Base2K(sh.b_in),
                             k: TorusPrecision(k_a),
                             rank: Rank(rank),
                             dnum: Dnum(dnum_a),
-                            dsize: Dsize(1),
+                            dsize: Dsize(ds),
                         };
                         let res_infos = GLWEAutomorphismKeyLayout {
                             n: Degree(sh.n),
                             base2k: Base2K(sh.b_in),
                             k: TorusPrecision(k_r),
                             rank: Rank(rank),
-                            dnum: Dnum(dnum_a.min(size_r)),
-                            dsize: Dsize(1),
+                            dnum: Dnum(dnum_a.min(size_r / ds)),
+                            dsize: Dsize(ds),
                         };
                         let mut a: GLWEAutomorphismKey<Vec<u8>> = GLWEAutomorphismKey::alloc_from_infos(&a_infos);
                         {
@@ -686,7 +690,7 @@ macro_rules! core_ops3_impl {
                         }
                         tsk.fill_uniform(sh.b_key as usize, &mut src(sh.seed, 7));
                         let mut tp = m.gglwe_to_ggsw_key_prepared_alloc_from_infos(&tsk);
-                        let (k_r, _size_r, dnum_r) = gadget_ct(sh.b_res, sh.k_res, sh.extra);
+                        let (k_r, _size_r, dnum_r) = gadget_ct(sh.b_res, sh.k_res, sh.extra, 1);
                         let res_infos = GGSWLayout {
                             n: Degree(sh.n),
                             base2k: Base2K(sh.b_res),
@@ -695,10 +699,13 @@ macro_rules! core_ops3_impl {
                             dnum: Dnum(dnum_r),
                             dsize: Dsize(1),
                         };
+                        // the source shares radix, rank and rows with the result (entry asserts); its precision is its own
+                        // (narrower or wider than the result: the rows are copied limb-wise), as long as it holds the rows
+                        let k_a = if sh.extra & 4 == 0 { k_r } else { sh.k_in.max(sh.b_res * dnum_r).max(sh.b_res + 1) };
                         let a_infos = GGLWELayout {
                             n: Degree(sh.n),
                             base2k: Base2K(sh.b_res),
-                            k: TorusPrecision(k_r),
+                            k: TorusPrecision(k_a),
                             rank_in: Rank(1),
                             rank_out: Rank(rank),
                             dnum: Dnum(dnum_r),
@@ -736,8 +743,9 @@ macro_rules! core_ops3_impl {
                         let mut s_lwe: LWESecret<Vec<u8>> = LWESecret::alloc(Degree(n_lwe));
                         s_lwe.fill_binary_prob(0.5, &mut src(sh.seed, 1));
                         // the plaintext may have fewer (or more) limbs than the ciphertext
-                        let mut pt: LWEPlaintext<Vec<u8>> = if op == "lwe_encrypt_sk" && sh.extra & 1 == 1 {
-                            LWEPlaintext::alloc(Base2K(sh.b_res), TorusPrecision(sh.k_in.max(1)))
+                        // (decryption normalises into the plaintext's own radix: another radix is admissible there)
+                        let mut pt: LWEPlaintext<Vec<u8>> = if sh.extra & 1 == 1 {
+                            LWEPlaintext::alloc(Base2K(if op == "lwe_decrypt" { sh.b_in } else { sh.b_res }), TorusPrecision(sh.k_in.max(1)))
                         } else {
                             LWEPlaintext::alloc_from_infos(&infos)
                         };
@@ -908,11 +916,16 @@ macro_rules! core_ops3_impl {
                                     }
                             })
                             .collect();
+                        // flags bit 0 (subject `glwe_pack+srclayout`): the ciphertexts to pack have their own layout (radix
+                        // b_in, k_in) instead of the result's - as the library's own caller has it (the repacking step of
+                        // `circuit_bootstrapping_execute_to_exponent` packs key-radix ciphertexts into a result-radix row);
+                        // the query only takes the result's layout
+                        let (ct_infos, ct_b) = if sh.flags & 1 == 1 { (in_infos, sh.b_in) } else { (out_infos, sh.b_res) };
                         let mut cts: Vec<GLWE<Vec<u8>>> = slots
                             .iter()
                             .map(|i| {
-                                let mut ct: GLWE<Vec<u8>> = GLWE::alloc_from_infos(&out_infos);
-                                ct.fill_uniform(sh.b_res as usize, &mut src(sh.seed ^ *i as u64, 6));
+                                let mut ct: GLWE<Vec<u8>> = GLWE::alloc_from_infos(&ct_infos);
+                                ct.fill_uniform(ct_b as usize, &mut src(sh.seed ^ *i as u64, 6));
                                 ct
                             })
                             .collect();
@@ -1051,8 +1064,10 @@ macro_rules! core_ops3_impl {
                         }
                         m.prepare_tensor_key(&mut tp, &tsk, big.borrow());
                         // limbs of the product accumulator: the op carves `tsk_size` limbs where the query (which has
-                        // no such parameter) budgets `tsk.size()`: the contract is 1..=tsk.size() (first, last, middle)
-                        let sz = 1 + draw::index(sh.seed >> 20, tp.size());
+                        // no such parameter) budgets `tsk.size()`: the contract is 1..=tsk.size() (first, last, middle).
+                        // With dsize > 1 the gadget product resizes the accumulator to the key's limb count
+                        // (`res.set_size(pmat.size() - ..)` asserts `size <= max_size`): only tsk.size() is accepted there.
+                        let sz = if sh.dsize == 1 { 1 + draw::index(sh.seed >> 20, tp.size()) } else { tp.size() };
                         let declared = m.glwe_tensor_relinearize_tmp_bytes(&out_infos, &a, &tsk_infos);
                         let r = windowed(declared, w, &mut |s| m.glwe_tensor_relinearize(&mut res, &a, &tp, sz, s));
                         finish(r, declared, vec![res.data().data.clone()])
@@ -1105,7 +1120,7 @@ macro_rules! core_ops3_impl {
                         finish(r, declared, vec![res.data().data.clone()])
                     }
                     "ggsw_rotate_assign" => {
-                        let (k_a, _size_a, dnum_a) = gadget_ct(sh.b_in, sh.k_in, sh.extra);
+                        let (k_a, _size_a, dnum_a) = gadget_ct(sh.b_in, sh.k_in, sh.extra, 1);
                         let a_infos = GGSWLayout {
                             n: Degree(sh.n),
                             base2k: Base2K(sh.b_in),
@@ -1202,7 +1217,9 @@ macro_rules! core_ops3_impl {
                     "glwe_compressed_encrypt_sk" => {
                         let enc = EncryptionLayout::new_from_default_sigma(out_infos).unwrap();
                         let (_s, sp) = skp(c, rank, sh.seed);
-                        let mut pt: GLWEPlaintext<Vec<u8>> = GLWEPlaintext::alloc_from_infos(&out_infos);
+                        // the plaintext has the ciphertext's radix and its own precision
+                        let pt_infos = if sh.extra & 1 == 1 { gl(sh.n, sh.b_res, sh.k_in, rank) } else { out_infos };
+                        let mut pt: GLWEPlaintext<Vec<u8>> = GLWEPlaintext::alloc_from_infos(&pt_infos);
                         pt.data_mut().fill_uniform(sh.b_res as usize, &mut src(sh.seed, 2));
                         let mut ct: GLWECompressed<Vec<u8>> = GLWECompressed::alloc_from_infos(&out_infos);
                         let declared = m.glwe_compressed_encrypt_sk_tmp_bytes(&out_infos);
@@ -1322,7 +1339,9 @@ macro_rules! core_ops3_impl {
                         m.glwe_public_key_generate(&mut pk, &sp, &enc, &mut src(sh.seed, 8), &mut src(sh.seed, 9));
                         let mut pkp = m.glwe_public_key_prepared_alloc_from_infos(&out_infos);
                         m.glwe_public_key_prepare(&mut pkp, &pk);
-                        let mut pt: GLWEPlaintext<Vec<u8>> = GLWEPlaintext::alloc_from_infos(&out_infos);
+                        // the plaintext has the key's radix (entry assert) and its own precision
+                        let pt_infos = if sh.extra & 1 == 1 { gl(sh.n, sh.b_res, sh.k_in, rank) } else { out_infos };
+                        let mut pt: GLWEPlaintext<Vec<u8>> = GLWEPlaintext::alloc_from_infos(&pt_infos);
                         pt.data_mut().fill_uniform(sh.b_res as usize, &mut src(sh.seed, 2));
                         let declared = m.glwe_encrypt_pk_tmp_bytes(&out_infos);
                         let r = if op == "glwe_encrypt_pk" {
@@ -1358,7 +1377,9 @@ macro_rules! core_ops3_impl {
                         m.glwe_secret_tensor_prepared_prepare(&mut stp, &st);
                         let mut ct: GLWETensor<Vec<u8>> = GLWETensor::alloc_from_infos(&out_infos);
                         ct.fill_uniform(sh.b_res as usize, &mut src(sh.seed, 6));
-                        let mut pt: GLWEPlaintext<Vec<u8>> = GLWEPlaintext::alloc_from_infos(&out_infos);
+                        // the plaintext has its own radix and precision (the final normalisation converts)
+                        let pt_infos = if sh.extra & 1 == 1 { gl(sh.n, sh.b_in, sh.k_in, rank) } else { out_infos };
+                        let mut pt: GLWEPlaintext<Vec<u8>> = GLWEPlaintext::alloc_from_infos(&pt_infos);
                         let declared = m.glwe_tensor_decrypt_tmp_bytes(&out_infos);
                         let r = windowed(declared, w, &mut |s| m.glwe_tensor_decrypt(&ct, &mut pt, &sp, &stp, s));
                         finish(r, declared, vec![pt.data().data.clone()])
@@ -1508,19 +1529,27 @@ macro_rules! core_ops3_impl {
                         let mut ap = m.cnv_pvec_left_alloc(cols, size_in);
                         let mut bp = m.cnv_pvec_right_alloc(cols, size_b);
                         match op {
+                            // the prepared operand has its own limb count (the query takes both: fewer, as many, more
+                            // limbs than the source)
                             "hal_cnv_prepare_left" => {
-                                let declared = m.cnv_prepare_left_tmp_bytes(size_in, size_in);
+                                let size_p = 1 + (sh.seed >> 36) as usize % (size_in + 1);
+                                let mut ap = m.cnv_pvec_left_alloc(cols, size_p);
+                                let declared = m.cnv_prepare_left_tmp_bytes(size_p, size_in);
                                 let r = windowed(declared, w, &mut |s| m.cnv_prepare_left(&mut ap, &a, mask, s));
                                 return Some(finish(r, declared, vec![bytes_of!(ap)]));
                             }
                             "hal_cnv_prepare_right" => {
-                                let declared = m.cnv_prepare_right_tmp_bytes(size_b, size_b);
+                                let size_p = 1 + (sh.seed >> 36) as usize % (size_b + 1);
+                                let mut bp = m.cnv_pvec_right_alloc(cols, size_p);
+                                let declared = m.cnv_prepare_right_tmp_bytes(size_p, size_b);
                                 let r = windowed(declared, w, &mut |s| m.cnv_prepare_right(&mut bp, &b, mask, s));
                                 return Some(finish(r, declared, vec![bytes_of!(bp)]));
                             }
                             "hal_cnv_prepare_self" => {
-                                let mut bp2 = m.cnv_pvec_right_alloc(cols, size_in);
-                                let declared = m.cnv_prepare_self_tmp_bytes(size_in, size_in);
+                                let size_p = 1 + (sh.seed >> 36) as usize % (size_in + 1);
+                                let mut ap = m.cnv_pvec_left_alloc(cols, size_p);
+                                let mut bp2 = m.cnv_pvec_right_alloc(cols, size_p);
+                                let declared = m.cnv_prepare_self_tmp_bytes(size_p, size_in);
                                 let r = windowed(declared, w, &mut |s| m.cnv_prepare_self(&mut ap, &mut bp2, &a, mask, s));
                                 return Some(finish(r, declared, vec![bytes_of!(ap), bytes_of!(bp2)]));
                             }
@@ -1585,29 +1614,37 @@ macro_rules! core_ops3_impl {
                 let rank = sh.rank_out;
                 let r = match op {
                     "cmux_assign" | "cmux_assign_neg" | "cswap" => {
-                        let in_infos = gl(sh.n, sh.b_in, sh.k_in, rank);
+                        // The selector product is `glwe_external_product_internal`, whose entry assert wants the operand in
+                        // the GGSW's radix (`cswap` has a branch for another radix, but it subtracts the unconverted inputs
+                        // into a key-radix temporary and trips `glwe_sub`'s radix assert): the ciphertexts are in the key's
+                        // radix, one draw in four in the shape's own input radix (rejected at entry when it differs).
+                        let b_g = if (sh.seed >> 53) & 3 == 0 { sh.b_in } else { sh.b_key };
+                        let in_infos = gl(sh.n, b_g, sh.k_in, rank);
                         let ggsw_infos = ggsw_key_layout(sh, rank);
                         let mut ggsw: GGSW<Vec<u8>> = GGSW::alloc_from_infos(&ggsw_infos);
                         ggsw.fill_uniform(sh.b_key as usize, &mut src(sh.seed, 2));
                         let mut gp = m.ggsw_prepared_alloc_from_infos(&ggsw);
                         m.ggsw_prepare(&mut gp, &ggsw, big.borrow());
                         let mut a: GLWE<Vec<u8>> = GLWE::alloc_from_infos(&in_infos);
-                        a.fill_uniform(sh.b_in as usize, &mut src(sh.seed, 6));
+                        a.fill_uniform(b_g as usize, &mut src(sh.seed, 6));
                         if op == "cswap" {
                             // both sides share the radix; precisions may differ
-                            let b_infos = gl(sh.n, sh.b_in, sh.k_res, rank);
+                            let b_infos = gl(sh.n, b_g, sh.k_res, rank);
                             let mut b: GLWE<Vec<u8>> = GLWE::alloc_from_infos(&b_infos);
-                            b.fill_uniform(sh.b_in as usize, &mut src(sh.seed, 7));
+                            b.fill_uniform(b_g as usize, &mut src(sh.seed, 7));
                             let declared = m.cswap_tmp_bytes(&in_infos, &b_infos, &ggsw_infos);
                             let r = windowed(declared, w, &mut |s| m.cswap(&mut a, &mut b, &gp, s));
                             finish(r, declared, vec![a.data().data.clone(), b.data().data.clone()])
                         } else {
-                            let mut res: GLWE<Vec<u8>> = GLWE::alloc_from_infos(&in_infos);
-                            res.fill_uniform(sh.b_in as usize, &mut src(sh.seed, 7));
+                            // receiver and operand share the radix (entry assert); their precisions are independent
+                            // (narrower, equal, wider receiver)
+                            let res_infos = gl(sh.n, b_g, if sh.extra & 1 == 1 { sh.k_res } else { sh.k_in }, rank);
+                            let mut res: GLWE<Vec<u8>> = GLWE::alloc_from_infos(&res_infos);
+                            res.fill_uniform(b_g as usize, &mut src(sh.seed, 7));
                             let declared = if op == "cmux_assign" {
-                                m.cmux_tmp_bytes(&in_infos, &in_infos, &ggsw_infos)
+                                m.cmux_tmp_bytes(&res_infos, &in_infos, &ggsw_infos)
                             } else {
-                                m.cmux_assign_neg_tmp_bytes(&in_infos, &in_infos, &ggsw_infos)
+                                m.cmux_assign_neg_tmp_bytes(&res_infos, &in_infos, &ggsw_infos)
                             };
                             let r = if op == "cmux_assign" {
                                 windowed(declared, w, &mut |s| m.cmux_assign(&mut res, &a, &gp, s))
